@@ -4,6 +4,7 @@ import FimVerif.Proofs.Lemmas.C16Validate
 import FimVerif.Proofs.Lemmas.C16Misc
 import FimVerif.Proofs.Lemmas.C16Domain
 import FimVerif.Proofs.Lemmas.C16Entry
+import FimVerif.Proofs.Lemmas.C03Parse
 /-!
 C16 - label, tag, name and data validation holds on every construction path.
 Property theorems only; lemmas are in Proofs/Lemmas/C16*.lean.
@@ -508,6 +509,48 @@ example : enter .ctor defaultObj [("local_name", .list [.str ['a'], .other])] = 
 example : enter .ctor defaultObj [("to_json", .str ['x'])] = .error "label" := by rfl
 example : enter .json defaultObj [("VALIDATORS", .str ['x']), ("vlan", .str ['7'])] = .ok (setKey "vlan" (.str ['7']) defaultObj) := by rfl
 
+/-! ## JSON blobs with the parser and the serialiser inside the model -/
+
+/-- a JSON text is stored iff it is at most MAX_SIZE characters long and `json.loads` (the parser model) accepts it -/
+theorem blob_text_accept_iff (cls : String) (m : Nat) (hm : jsonMax.lookup cls = some m) (text : String) :
+    jsonText cls text = .ok () ↔ text.length ≤ m ∧ ∃ j, JParse.parse text = some j := by
+  unfold jsonText
+  rw [(json_accept_iff cls m hm text.length (JParse.parse text).isSome).1, Option.isSome_iff_exists]
+
+/-- an object (other than None, which stands for the empty object) is stored iff its dump is at most MAX_SIZE characters
+long, and what is stored is the dump -/
+theorem blob_value_accept_iff (cls : String) (m : Nat) (hm : jsonMax.lookup cls = some m) (j : JVal) (hj : j ≠ .null) (t : String) :
+    jsonValue cls j = .ok t ↔ (JVal.render j).length ≤ m ∧ t = JVal.render j := by
+  have hgen : jsonValue cls j = (if jsonTooLong (JVal.render j).length m then throw "jsondata" else pure (JVal.render j)) := by
+    unfold jsonValue; rw [hm]; cases j <;> first | rfl | exact absurd rfl hj
+  rw [hgen]
+  simp only [jsonTooLong]
+  by_cases h : (JVal.render j).length > m
+  · simp [h, throw, throwThe, MonadExceptOf.throw]; omega
+  · simp only [h, decide_false, Bool.false_eq_true, if_false, pure, Except.pure, Except.ok.injEq]
+    constructor
+    · intro ht; exact ⟨by omega, ht.symm⟩
+    · rintro ⟨_, ht⟩; exact ht.symm
+
+/-- `JSONData(None)` stores the empty object -/
+theorem blob_none_is_empty_object (cls : String) (m : Nat) (hm : jsonMax.lookup cls = some m) :
+    jsonValue cls .null = .ok (JVal.render (.obj [])) := by
+  unfold jsonValue; rw [hm]; rfl
+
+/-- Whatever the object path accepted and stored is accepted again when it arrives as text (decoding a stored blob, a
+serialized topology): for every float-free JSON value with distinct keys in its objects, of any size and depth.
+`json.loads(json.dumps(j)) == j` is C03's `parse_render`. -/
+theorem blob_value_reencodes (cls : String) (j : JVal) (hj : j ≠ .null) (hp : JParse.plain j = true) (t : String)
+    (h : jsonValue cls j = .ok t) : jsonText cls t = .ok () ∧ JParse.parse t = some j := by
+  cases hm : jsonMax.lookup cls with
+  | none => simp [jsonValue, hm, throw, throwThe, MonadExceptOf.throw] at h
+  | some m =>
+    obtain ⟨hlen, rfl⟩ := (blob_value_accept_iff cls m hm j hj t).mp h
+    exact ⟨(blob_text_accept_iff cls m hm _).mpr ⟨hlen, j, JParse.parse_render j hp⟩, JParse.parse_render j hp⟩
+
+/-- non-vacuity of `plain`: nested arrays / objects with distinct keys, strings, integers, booleans, null -/
+example : JParse.plain (.obj [("a", .arr [.int 1, .null, .str "x"]), ("b", .bool true)]) = true := by decide
+
 /-! ## Every entry point reaches the validator
 
 The tables are regenerated from the source on every run (gen/entrypoints.py): `stores` is the closed-world list of statements
@@ -527,6 +570,18 @@ theorem every_entry_point_validated : ∀ e ∈ entryPoints, entryOk e = true :=
 
 /-- … and has a behavioural probe in the harness (or is the abstract constructor). -/
 theorem every_entry_point_probed : ∀ e ∈ entryPoints, (e.probed || e.fn == "ModelElement.__init__") = true := by decide
+
+/-- Every name the library composes itself from caller input (`<node>-<component>-l2ovs`, `<component>-<port>`,
+`<node>-<interface>` ServicePorts and their `-link`, `<svc>-<svc>` peerings, `<name>-ns`, `<name>-int`, `p<i>`) is handed to
+`set_name` of a sliver class or to the name parameter of an entry point of the table - never assigned to a sliver field. -/
+theorem every_composed_name_validated : ∀ c ∈ composedNames, c.2.2.2 = true := by decide
+
+/-- The order of the checks in one iteration of `Labels._set_fields`, read from the AST, is the order `V16.setField`
+implements: not None; a str or a list of str; the key is an instance field; regex; range; assignment; an unknown key is
+skipped by from_json and raises otherwise. (A reordering, a dropped or a new statement changes the generated list.) -/
+theorem set_fields_skeleton :
+    setFieldsSkeleton = ["assert:not-none", "assert:str-or-list-of-str", "field:instance-dict", "regex", "range", "store",
+                         "unknown:forgiving-skips,strict-raises"] := by rfl
 
 /-- the writers whose control flow Model/Validate16.lean mirrors are among the guarded ones -/
 theorem modelled_writers_guarded : ∀ w ∈ modelledWriters, guardedWriters.contains w = true := by decide
